@@ -17,7 +17,7 @@ import itertools
 
 DEFAULT_FEAT = dict(
     subtypes=True, constants=True, neg=True, equality=True, numeric=True, when=True, forall_eff=True,
-    or_pre=False, forall_pre=False, bare_pre=False, nested_numeric=False, nested_cond=False, join_names=False, tiny_offsets=False,   # nested / quantified / unwrapped preconditions
+    or_pre=False, forall_pre=False, bare_pre=False, nested_numeric=False, nested_cond=False, join_names=False, tiny_offsets=False, dense_quant=False, implicit_parent_types=False,   # nested / quantified / unwrapped preconditions
     cond_numeric=True,                       # numeric comparisons inside when/forall conditions
     child_first_types=False,                 # D10 finding profile
     repeated_call_objects=True, long_names=False,
@@ -105,6 +105,28 @@ def gen_domain(t, feat=None, multi_agent=False):
             "eff": gen_effects(t, D, params, f),
         }
     D["actions"] = acts
+    D["implicit_types"] = set()
+    if f.get("implicit_parent_types"):
+        # a supertype that is only ever used as a parent may be left without a declaration line of its own
+        # ('car truck - vehicle' alone makes vehicle a child of object)
+        used = set()
+
+        def scan(x):
+            if isinstance(x, (list, tuple)):
+                if len(x) >= 3 and x[0] == "forall":
+                    used.add(x[2])
+                for y in x:
+                    scan(y)
+        for sig in list(D["predicates"].values()) + list(D["functions"].values()):
+            used.update(sig)
+        used.update(D["constants"].values())
+        for a in acts.values():
+            used.update(ty for _, ty in a["params"])
+            scan(a["pre"])
+            scan(a["eff"])
+        for n, par in types.items():
+            if par == "object" and n not in used and n != "agent" and any(pp == n for pp in types.values()) and t.draw(2):
+                D["implicit_types"].add(n)
     return D
 
 
@@ -229,8 +251,11 @@ def gen_conj(t, D, scope, f, top=False, depth=2):
                 sub += lits(sc, 1)
         return ("or", sub) if sub else None
 
-    for _ in range(t.draw(4)):
+    dense = bool(f.get("dense_quant")) and top  # swarm: some runs pack several quantified conditions into one action
+    for _ in range(2 + t.draw(4) if dense else t.draw(4)):
         k = t.draw(10)
+        if dense and f["forall_pre"] and k >= 6:
+            k = 2
         if k < 2 and f["or_pre"] and depth > 0:
             d = disj(scope)
             if d:
@@ -241,7 +266,9 @@ def gen_conj(t, D, scope, f, top=False, depth=2):
         elif k in (2, 3) and f["forall_pre"] and top:
             ty = t.pick(list(D["types"]))
             v = "?q"
-            sc = scope + [(v, ty)]
+            if f.get("shadowing", True) and scope and t.chance(1, 2 if dense else 5):
+                v = t.pick(scope)[0]  # shadows a parameter: inside the forall the name denotes the quantified object
+            sc = [(n, tt) for n, tt in scope if n != v] + [(v, ty)]
             if f["or_pre"] and t.draw(3) == 0:
                 body = disj(sc)  # (forall (?q - ty) (or ...))
             else:
@@ -300,9 +327,13 @@ def gen_effects(t, D, params, f):
                 c.append(("or", sub))
         elif k == 2:
             ty = t.pick(list(D["types"]))
-            sub = [x for x in (gen_lit(t, D, sc + [("?w", ty)], fnn) for _ in range(1 + t.draw(2))) if x]
+            w = "?w"
+            if f.get("shadowing", True) and sc and t.chance(1, 5):
+                w = t.pick(sc)[0]
+            sub = [x for x in (gen_lit(t, D, [(n, tt) for n, tt in sc if n != w] + [(w, ty)], fnn)
+                               for _ in range(1 + t.draw(2))) if x]
             if sub:
-                c.append(("forall", "?w", ty, ("and", sub)))
+                c.append(("forall", w, ty, ("and", sub)))
         return c, False
 
     if f["when"]:
@@ -312,7 +343,7 @@ def gen_effects(t, D, params, f):
             if c and e:
                 effs.append(("when", ("and", c), e) + (("bare",) if bare else ()))
     if f["forall_eff"]:
-        for _ in range(t.draw(2)):
+        for _ in range(t.draw(3)):
             ty = t.pick(list(D["types"]))
             v = "?u"
             if f.get("shadowing", True) and params and t.chance(1, 6):
@@ -333,7 +364,7 @@ def objects_of(D, allobj, ty):
 def gen_problem(t, D, feat=None, agents=0):
     f = dict(DEFAULT_FEAT)
     f.update(feat or {})
-    names = [n for n in D["types"] if n != "agent"]
+    names = [n for n in D["types"] if n != "agent" and n not in D.get("implicit_types", ())]
     objs = {}
     agnames = t.shuffle(["ag0", "ag1", "ag10", "ag-1", "ag_2", "agx"][:max(agents, 1) + 2])
     for i in range(agents):
@@ -476,7 +507,7 @@ def r_sig(sig):
 
 def type_decl_order(D, child_first=False, t=None):
     """declaration lines 'child - parent' with parents declared before children (or deliberately not)"""
-    order = list(D["types"].items())
+    order = [(n, p) for n, p in D["types"].items() if n not in D.get("implicit_types", ())]
     if child_first:
         order = order[::-1]
     return order
